@@ -305,6 +305,335 @@ theorem C01_segments_language (E : Engine) (S : EngineSem E) (cfg : Config) (st 
     simp only [List.map_cons, List.map_nil, List.flatten_cons, List.flatten_nil, List.append_nil] at h2
     exact ⟨_, h2, fun w => Lang.prod_single _ w⟩
 
+/-! ### the language of nested blocks (recursive plain reading), under the engine laws
+
+  A program made of entries, segment marks and nested `assemble` blocks — to any depth — is read recursively:
+  an entry denotes what the engine reads in it, a segment the union of its members, a block the product of its
+  segments. Under the two laws above and a third one (T: a join of lines that all parse succeeds) the evaluation of
+  every such block succeeds and hands its parent exactly one line, which denotes the plain reading of the block. -/
+
+mutual
+  inductive Node where
+    | entry (e : Bytes)
+    /-- segments closed by `##!=>`, then the (possibly empty) open segment before `##!<` -/
+    | block (closed : Segs) (last : Seg)
+  inductive Seg where
+    | nil
+    | cons (n : Node) (s : Seg)
+  inductive Segs where
+    | nil
+    | cons (s : Seg) (ss : Segs)
+end
+
+def markLine : Bytes := b!"##!=>"
+def assembleStart : Bytes := b!"##!> assemble"
+
+mutual
+  def Node.items : Node → List Item
+    | .entry e => [.line e]
+    | .block cl op => [.block assembleStart (Segs.items cl ++ Seg.items op)]
+  def Seg.items : Seg → List Item
+    | .nil => []
+    | .cons n s => Node.items n ++ Seg.items s
+  def Segs.items : Segs → List Item
+    | .nil => []
+    | .cons s ss => Seg.items s ++ [.line markLine] ++ Segs.items ss
+end
+
+def Seg.isNil : Seg → Bool
+  | .nil => true
+  | .cons _ _ => false
+
+def Segs.isNil : Segs → Bool
+  | .nil => true
+  | .cons _ _ => false
+
+mutual
+  /-- the plain reading -/
+  def Node.lang (den : Bytes → Option Lang) : Node → Lang
+    | .entry e => (den e).getD (fun _ => False)
+    | .block cl op => Lang.prod (Segs.langs den cl ++ (if op.isNil then [] else [Lang.union (Seg.langs den op)]))
+  def Seg.langs (den : Bytes → Option Lang) : Seg → List Lang
+    | .nil => []
+    | .cons n s => Node.lang den n :: Seg.langs den s
+  def Segs.langs (den : Bytes → Option Lang) : Segs → List Lang
+    | .nil => []
+    | .cons s ss => Lang.union (Seg.langs den s) :: Segs.langs den ss
+end
+
+mutual
+  /-- entries are entries the engine can read; closed segments are not empty; a block is not empty -/
+  def Node.wf (den : Bytes → Option Lang) : Node → Prop
+    | .entry e => isEntry e = true ∧ (den e).isSome = true
+    | .block cl op => Segs.wf den cl ∧ Seg.wf den op ∧ (cl.isNil = false ∨ op.isNil = false)
+  def Seg.wf (den : Bytes → Option Lang) : Seg → Prop
+    | .nil => True
+    | .cons n s => Node.wf den n ∧ Seg.wf den s
+  def Segs.wf (den : Bytes → Option Lang) : Segs → Prop
+    | .nil => True
+    | .cons s ss => s.isNil = false ∧ Seg.wf den s ∧ Segs.wf den ss
+end
+
+/-- law (T): a join of lines the engine can read succeeds -/
+def JoinTotal (E : Engine) (den : Bytes → Option Lang) : Prop :=
+  ∀ ls : List Bytes, ls ≠ [] → (∀ l ∈ ls, (den l).isSome = true) → ∃ t, E.join ls = .ok t
+
+theorem Lang.prod_single_eq (L : Lang) : Lang.prod [L] = L :=
+  funext fun w => propext (Lang.prod_single L w)
+
+theorem Lang.prod_append_single (Ls : List Lang) (L : Lang) :
+    Lang.prod [Lang.prod Ls, L] = Lang.prod (Ls ++ [L]) := by
+  induction Ls with
+  | nil =>
+    funext w; apply propext
+    simp only [Lang.prod, Lang.concat, List.nil_append]
+    constructor
+    · rintro ⟨u, v, rfl, rfl, x, y, rfl, hx, rfl⟩
+      exact ⟨x, [], by simp, hx, rfl⟩
+    · rintro ⟨x, y, rfl, hx, rfl⟩
+      exact ⟨[], x ++ [], by simp, rfl, x, [], by simp, hx, rfl⟩
+  | cons A Ls ih =>
+    funext w; apply propext
+    have ih' := fun w => congrFun ih w
+    simp only [List.cons_append, Lang.prod, Lang.concat] at ih' ⊢
+    constructor
+    · rintro ⟨u, v, rfl, ⟨a, r, rfl, ha, hr⟩, x, y, rfl, hx, rfl⟩
+      refine ⟨a, r ++ (x ++ []), by simp, ha, ?_⟩
+      have := (ih' (r ++ (x ++ []))).mp ⟨r, x ++ [], rfl, hr, x, [], by simp, hx, rfl⟩
+      exact this
+    · rintro ⟨a, t, rfl, ha, ht⟩
+      obtain ⟨r, v, rfl, hr, x, y, rfl, hx, rfl⟩ := (ih' t).mpr ht
+      exact ⟨a ++ r, x ++ [], by simp, ⟨a, r, rfl, ha, hr⟩, x, [], by simp, hx, rfl⟩
+
+theorem mapM_den_append (den : Bytes → Option Lang) (as bs : List Bytes) (As Bs : List Lang)
+    (ha : as.mapM den = some As) (hb : bs.mapM den = some Bs) : (as ++ bs).mapM den = some (As ++ Bs) := by
+  induction as generalizing As with
+  | nil => simp at ha; subst ha; simpa using hb
+  | cons a as ih =>
+    simp only [List.mapM_cons, Option.bind_eq_bind] at ha
+    cases hda : den a with
+    | none => simp [hda] at ha
+    | some A =>
+      simp only [hda, Option.bind_some] at ha
+      cases hra : as.mapM den with
+      | none => simp [hra] at ha
+      | some R =>
+        simp only [hra, Option.bind_some, Option.pure_def, Option.some.injEq] at ha
+        subst ha
+        simp [List.mapM_cons, hda, ih R hra]
+
+theorem mapM_den_isSome (den : Bytes → Option Lang) (ls : List Bytes) (Ls : List Lang) (h : ls.mapM den = some Ls) :
+    ∀ l ∈ ls, (den l).isSome = true := by
+  induction ls generalizing Ls with
+  | nil => intro l hl; simp at hl
+  | cons a as ih =>
+    simp only [List.mapM_cons, Option.bind_eq_bind] at h
+    cases hda : den a with
+    | none => simp [hda] at h
+    | some A =>
+      simp only [hda, Option.bind_some] at h
+      cases hra : as.mapM den with
+      | none => simp [hra] at h
+      | some R =>
+        intro l hl
+        simp only [List.mem_cons] at hl
+        rcases hl with rfl | hl
+        · simp [hda]
+        · exact ih R hra l hl
+
+/-- a line that starts with a group is an entry of the enclosing block -/
+theorem group_line_isEntry (x : Bytes) : isEntry (b!"(?:" ++ x) = true := by
+  simp [isEntry, assembleInput?, assembleOutput?, dropWs, isWs, stripPrefix?]
+
+/-- consuming the single result line of a finished block -/
+theorem consume_group_line (E : Engine) (cfg : Config) (st : Stash) (lines : List Bytes) (out x : Bytes) :
+    procConsume E cfg st (.assemble lines out) [b!"(?:" ++ x] = .ok (st, .assemble (lines ++ [b!"(?:" ++ x]) out) := by
+  have h := group_line_isEntry x
+  simp only [isEntry, Bool.and_eq_true, Option.isNone_iff_eq_none] at h
+  have h1 : assembleInput? ('(' :: '?' :: ':' :: x) = none := by simpa using h.1
+  have h2 : assembleOutput? ('(' :: '?' :: ':' :: x) = none := by simpa using h.2
+  simp [procConsume, procLine, assembleLine, h1, h2]
+
+theorem startProc_assemble : startProc? assembleStart = some (.assemble [] []) := by
+  have h : processorStart? assembleStart = some (b!"assemble", []) := by decide
+  simp [startProc?, h]
+
+/-- closing a segment whose lines the engine can read -/
+theorem mark_closes' (E : Engine) (S : EngineSem E) (hT : JoinTotal E S.den) (cfg : Config) (st : Stash)
+    (seg : List Bytes) (Ls : List Lang) (out : Bytes) (hne : seg ≠ []) (hd : seg.mapM S.den = some Ls) :
+    ∃ j, evalItem E cfg st (.assemble seg out) (.line markLine) = .ok (st, .assemble [] (out ++ group j)) ∧
+      S.den j = some (Lang.union Ls) := by
+  obtain ⟨j, hj⟩ := hT seg hne (mapM_den_isSome S.den seg Ls hd)
+  obtain ⟨Ls', h1, h2⟩ := S.join_den seg j hj
+  rw [hd] at h1
+  simp only [Option.some.injEq] at h1
+  subst h1
+  exact ⟨j, mark_closes E cfg st seg out j hne hj, h2⟩
+
+mutual
+  /-- a node inside a segment contributes exactly one line, which denotes its plain reading -/
+  theorem node_lang (E : Engine) (S : EngineSem E) (hT : JoinTotal E S.den) (cfg : Config) (st : Stash) :
+      ∀ (n : Node), Node.wf S.den n → ∀ (lines : List Bytes) (out : Bytes),
+        ∃ r : Bytes, evalItems E cfg st (.assemble lines out) (Node.items n) = .ok (st, .assemble (lines ++ [r]) out) ∧
+          S.den r = some (Node.lang S.den n)
+    | .entry e, hw, lines, out => by
+      obtain ⟨he, hd⟩ := hw
+      refine ⟨e, ?_, ?_⟩
+      · have := C01_entries_accumulate E cfg st lines out [e] (by intro x hx; simp at hx; subst hx; exact he)
+        simpa [Node.items] using this
+      · cases h : S.den e with
+        | none => simp [h] at hd
+        | some L => simp [Node.lang, h]
+    | .block cl op, hw, lines, out => by
+      obtain ⟨hcl, hop, hne⟩ := hw
+      have hcons : ∀ x : Bytes, procConsume E cfg st (.assemble lines out) ['(' :: '?' :: ':' :: x] =
+          .ok (st, .assemble (lines ++ ['(' :: '?' :: ':' :: x]) out) :=
+        fun x => by simpa using consume_group_line E cfg st lines out x
+      obtain ⟨joins, hev1, hd1⟩ := segs_lang E S hT cfg st cl hcl []
+      obtain ⟨rs, hev2, hd2, hlen⟩ := seg_lang E S hT cfg st op hop [] ((joins.map group).flatten)
+      simp only [List.nil_append] at hev1 hev2
+      -- the body
+      have hbody : evalItems E cfg st (.assemble [] []) (Segs.items cl ++ Seg.items op) =
+          .ok (st, .assemble rs ((joins.map group).flatten)) := by
+        rw [evalItems_append, hev1]; exact hev2
+      -- completion
+      have hjoins := S.groups_den joins (Segs.langs S.den cl) hd1
+      by_cases hopn : op.isNil = true
+      · -- no open segment: the closed ones are not empty
+        have hrs : rs = [] := by
+          cases op with
+          | nil =>
+            have : rs.length = 0 := by simpa [Seg.langs] using hlen
+            exact List.length_eq_zero_iff.mp this
+          | cons _ _ => simp [Seg.isNil] at hopn
+        subst hrs
+        have hcln : cl.isNil = false := by
+          rcases hne with h | h
+          · exact h
+          · rw [hopn] at h; exact absurd h (by simp)
+        have hjne : joins ≠ [] := by
+          cases cl with
+          | nil => simp [Segs.isNil] at hcln
+          | cons s ss =>
+            intro e; subst e
+            simp [Segs.langs] at hd1
+        have houtE : ((joins.map group).flatten).isEmpty = false := by
+          cases joins with
+          | nil => exact absurd rfl hjne
+          | cons j js => simp [group]
+        refine ⟨group ((joins.map group).flatten), ?_, ?_⟩
+        · simp only [Node.items, evalItems, evalItem, startProc_assemble, hbody]
+          have hc : procComplete E (.assemble [] ((joins.map group).flatten)) = .ok [group ((joins.map group).flatten)] := by
+            simp [procComplete, runAssemble, wrapCompleted, houtE, group]
+          simp only [hc]
+          simp [group, List.append_assoc, hcons]
+        · have h2 := S.groups_den [(joins.map group).flatten] [Lang.prod (Segs.langs S.den cl)] (by simp [List.mapM_cons, hjoins])
+          simp only [List.map_cons, List.map_nil, List.flatten_cons, List.flatten_nil, List.append_nil] at h2
+          rw [h2, Lang.prod_single_eq]
+          simp [Node.lang, hopn]
+      · have hopn' : op.isNil = false := by simpa using hopn
+        have hrsne : rs ≠ [] := by
+          cases op with
+          | nil => simp [Seg.isNil] at hopn'
+          | cons _ _ =>
+            intro e; subst e
+            simp [Seg.langs] at hlen
+        obtain ⟨jo, hjo⟩ := hT rs hrsne (mapM_den_isSome S.den rs _ hd2)
+        obtain ⟨Ls', h1, h2⟩ := S.join_den rs jo hjo
+        rw [hd2] at h1
+        simp only [Option.some.injEq] at h1
+        subst h1
+        have hrsE : rs.isEmpty = false := by cases rs with | nil => exact absurd rfl hrsne | cons _ _ => rfl
+        have hgj : S.den (group jo) = some (Lang.union (Seg.langs S.den op)) := by
+          have := S.groups_den [jo] [Lang.union (Seg.langs S.den op)] (by simp [List.mapM_cons, h2])
+          simp only [List.map_cons, List.map_nil, List.flatten_cons, List.flatten_nil, List.append_nil] at this
+          rw [this, Lang.prod_single_eq]
+        by_cases hjn : joins = []
+        · -- only the open segment
+          subst hjn
+          have hcl0 : Segs.langs S.den cl = [] := by simpa using hd1.symm
+          refine ⟨group (group jo), ?_, ?_⟩
+          · simp only [Node.items, evalItems, evalItem, startProc_assemble, hbody]
+            have hc : procComplete E (.assemble rs ((([] : List Bytes).map group).flatten)) = .ok [group (group jo)] := by
+              simp [procComplete, runAssemble, hrsE, hjo, wrapCompleted, group]
+            simp only [hc]
+            simp [group, List.append_assoc, hcons]
+          · have := S.groups_den [group jo] [Lang.union (Seg.langs S.den op)] (by simp [List.mapM_cons, hgj])
+            simp only [List.map_cons, List.map_nil, List.flatten_cons, List.flatten_nil, List.append_nil] at this
+            rw [this, Lang.prod_single_eq]
+            simp [Node.lang, hopn', hcl0, Lang.prod_single_eq]
+        · have houtE : ((joins.map group).flatten).isEmpty = false := by
+            cases joins with
+            | nil => exact absurd rfl hjn
+            | cons j js => simp [group]
+          refine ⟨group ((joins.map group).flatten) ++ group (group jo), ?_, ?_⟩
+          · simp only [Node.items, evalItems, evalItem, startProc_assemble, hbody]
+            have hc : procComplete E (.assemble rs ((joins.map group).flatten)) =
+                .ok [group ((joins.map group).flatten) ++ group (group jo)] := by
+              simp [procComplete, runAssemble, hrsE, hjo, wrapCompleted, houtE, group, List.append_assoc]
+            simp only [hc]
+            simp [group, List.append_assoc, hcons]
+          · have := S.groups_den [(joins.map group).flatten, group jo]
+              [Lang.prod (Segs.langs S.den cl), Lang.union (Seg.langs S.den op)] (by simp [List.mapM_cons, hjoins, hgj])
+            simp only [List.map_cons, List.map_nil, List.flatten_cons, List.flatten_nil, List.append_nil] at this
+            rw [this, Lang.prod_append_single]
+            simp [Node.lang, hopn']
+  /-- the members of a segment, one line each -/
+  theorem seg_lang (E : Engine) (S : EngineSem E) (hT : JoinTotal E S.den) (cfg : Config) (st : Stash) :
+      ∀ (s : Seg), Seg.wf S.den s → ∀ (lines : List Bytes) (out : Bytes),
+        ∃ rs : List Bytes, evalItems E cfg st (.assemble lines out) (Seg.items s) = .ok (st, .assemble (lines ++ rs) out) ∧
+          rs.mapM S.den = some (Seg.langs S.den s) ∧ rs.length = (Seg.langs S.den s).length
+    | .nil, _, lines, out => ⟨[], by simp [Seg.items, evalItems], by simp [Seg.langs], by simp [Seg.langs]⟩
+    | .cons n s, hw, lines, out => by
+      obtain ⟨hn, hs⟩ := hw
+      obtain ⟨r, hev1, hd1⟩ := node_lang E S hT cfg st n hn lines out
+      obtain ⟨rs, hev2, hd2, hl2⟩ := seg_lang E S hT cfg st s hs (lines ++ [r]) out
+      refine ⟨r :: rs, ?_, ?_, ?_⟩
+      · simp only [Seg.items]
+        rw [evalItems_append, hev1]
+        simpa [List.append_assoc] using hev2
+      · simp [List.mapM_cons, hd1, hd2, Seg.langs]
+      · simp [Seg.langs, hl2]
+  /-- closed segments: one group per segment is appended to the text so far -/
+  theorem segs_lang (E : Engine) (S : EngineSem E) (hT : JoinTotal E S.den) (cfg : Config) (st : Stash) :
+      ∀ (ss : Segs), Segs.wf S.den ss → ∀ (out : Bytes),
+        ∃ joins : List Bytes, evalItems E cfg st (.assemble [] out) (Segs.items ss) = .ok (st, .assemble [] (out ++ (joins.map group).flatten)) ∧
+          joins.mapM S.den = some (Segs.langs S.den ss)
+    | .nil, _, out => ⟨[], by simp [Segs.items, evalItems], by simp [Segs.langs]⟩
+    | .cons s ss, hw, out => by
+      obtain ⟨hsn, hs, hss⟩ := hw
+      obtain ⟨rs, hev1, hd1, hl1⟩ := seg_lang E S hT cfg st s hs [] out
+      simp only [List.nil_append] at hev1
+      have hrsne : rs ≠ [] := by
+        cases s with
+        | nil => simp [Seg.isNil] at hsn
+        | cons _ _ => intro e; subst e; simp [Seg.langs] at hl1
+      obtain ⟨j, hm, hdj⟩ := mark_closes' E S hT cfg st rs _ out hrsne hd1
+      obtain ⟨joins, hev2, hd2⟩ := segs_lang E S hT cfg st ss hss (out ++ group j)
+      refine ⟨j :: joins, ?_, ?_⟩
+      · simp only [Segs.items, List.append_assoc]
+        rw [evalItems_append, hev1]
+        simp only [List.cons_append, List.nil_append, evalItems, hm]
+        simpa [List.append_assoc] using hev2
+      · simp [List.mapM_cons, hdj, hd2, Segs.langs]
+end
+
+/-- **C01 (language of nested blocks, under the engine laws J, G, T).** Every block of entries, segment marks and
+    nested blocks — to any depth, with any number of segments and members — evaluates successfully inside an enclosing
+    block and hands it exactly one line; that line denotes the plain reading of the block: the product over its
+    segments of the union over their members, members that are blocks read the same way. -/
+theorem C01_nested_language (E : Engine) (S : EngineSem E) (hT : JoinTotal E S.den) (cfg : Config) (st : Stash)
+    (cl : Segs) (op : Seg) (hw : Node.wf S.den (.block cl op)) (lines : List Bytes) (out : Bytes) :
+    ∃ r : Bytes, evalItems E cfg st (.assemble lines out) (Node.items (.block cl op)) = .ok (st, .assemble (lines ++ [r]) out) ∧
+      S.den r = some (Node.lang S.den (.block cl op)) :=
+  node_lang E S hT cfg st (.block cl op) hw lines out
+
+/-- what such a tree looks like as text: `a`, `b`, `##!=>`, then an inner block with `c` — and it is well nested -/
+example :
+    let n : Node := .block (.cons (.cons (.entry b!"a") (.cons (.entry b!"b") .nil)) .nil) (.cons (.block .nil (.cons (.entry b!"c") .nil)) .nil)
+    flattenItems (Node.items n) = [b!"##!> assemble", b!"a", b!"b", b!"##!=>", b!"##!> assemble", b!"c", b!"##!<", b!"##!<"]
+      ∧ wfItems (Node.items n) = true := by decide
+
 /-- non-vacuity: a nested program is well nested and flattens to the expected lines -/
 example : wfItems [.line "a".toList, .block "##!> assemble".toList [.line "b".toList, .line "##!=>".toList, .line "c".toList], .line "d".toList] = true
     ∧ flattenItems [.line "a".toList, .block "##!> assemble".toList [.line "b".toList, .line "##!=>".toList, .line "c".toList], .line "d".toList]
